@@ -25,8 +25,6 @@ T = TypeVar('T')
 class ThreadLocal(Generic[T]):
     """This type offers the ability to store a value based on the thread that accessed the value."""
 
-    __store = {}
-
     def __init__(self, default_provider: Callable[[], T] = lambda: None):
         """
         Create a new ThreadLocal value.
@@ -34,6 +32,9 @@ class ThreadLocal(Generic[T]):
         :param default_provider: a provider that will produce a default value
         """
         self.__default_provider = default_provider
+        # the store has to belong to this instance (two instances must not see the value of one another), and to the
+        # thread (the value must go away with its thread, and never be seen by a later thread that reuses the ident)
+        self.__store = threading.local()
 
     def get(self) -> T:
         """
@@ -41,11 +42,10 @@ class ThreadLocal(Generic[T]):
 
         :return: the stored value, or the value from the default_provider
         """
-        current_thread = threading.current_thread()
-        get = self.__store.get(current_thread.ident, None)
+        get = getattr(self.__store, 'value', None)
         if get is None:
             get = self.__default_provider()
-            self.__store[current_thread.ident] = get
+            self.__store.value = get
         return get
 
     def set(self, val: T):
@@ -54,14 +54,12 @@ class ThreadLocal(Generic[T]):
 
         :param val: the value to store
         """
-        current_thread = threading.current_thread()
-        self.__store[current_thread.ident] = val
+        self.__store.value = val
 
     def clear(self):
         """Remove the value for this thread."""
-        current_thread = threading.current_thread()
-        if current_thread.ident in self.__store:
-            del self.__store[current_thread.ident]
+        if hasattr(self.__store, 'value'):
+            del self.__store.value
 
     @property
     def is_set(self):
@@ -70,8 +68,7 @@ class ThreadLocal(Generic[T]):
 
         :return: True if there is a value for this thread
         """
-        current_thread = threading.current_thread()
-        return current_thread.ident in self.__store
+        return hasattr(self.__store, 'value')
 
     @property
     def value(self):
